@@ -341,4 +341,36 @@ def run(db, tier):
         rep.check(counts_non_default(fn_) and not uses_len, "R-ARITY-DEF", "Signature::" + nm, fn_.loc, "counts parameters without a default",
                   "%s is not the count of parameters without a default (%s): calls may pass arguments that encode_args never consumes, so later arguments land in the wrong field or are dropped"
                   % (nm, "uses params.len()" if uses_len else "no reference to `default`"))
+    # ---------------- intrinsic argument placement: indices count padding on both sides
+    rep.rule("R-INTRINSIC-INDEX", "the argument indices of IntrinsicInstrAbiParts count padding (the decompiler indexes the decoded argument "
+                                  "list, which contains padding); the lowerer must therefore size its list with padding included and drop "
+                                  "the padding slots afterwards")
+    fa = db.fn("llir::intrinsic::IntrinsicInstrAbiParts::from_abi")
+    rep.fn(fa)
+    dfa = flow.Defs(fa)
+    rm = [bi for bi, t in fa.calls() if t.get("f", "").endswith("find_and_remove_padding")]
+    ok_n = False
+    for b in fa.blocks:
+        for st in b["s"]:
+            if st["r"] == "agg" and (st.get("adt") or "").endswith("IntrinsicInstrAbiParts"):
+                o = dict(zip(st["fn"], st["ops"])).get("num_instr_args")
+                srcs = dfa._op_sources(o, 0, set(), True) if o is not None else set()
+                lens = [x[2] for x in srcs if x[0] == "call" and x[1].endswith("::len")]
+                # the len() that feeds num_instr_args is taken BEFORE padding is removed
+                ok_n = bool(lens) and bool(rm) and all(not any(lb in fa.reachable_from(r) for r in rm) for lb in lens)
+    rep.check(ok_n, "R-INTRINSIC-INDEX", "from_abi|num_instr_args counts padding", fa.loc, "num_instr_args = number of encodings before padding is removed",
+              "num_instr_args is computed after padding was removed while the stored indices still count padding: a signature with padding "
+              "before an argument (`S_SS`) indexes past the end of the lowerer's argument list")
+    iv = db.fn("llir::lower::intrinsic::IntrinsicBuilder::<'_>::into_vec")
+    rep.fn(iv)
+    def _mentions_field(x, name):
+        if isinstance(x, list):
+            if len(x) >= 2 and x[0] == "f" and x[1] == name:
+                return True
+            return any(_mentions_field(y, name) for y in x)
+        if isinstance(x, dict):
+            return any(_mentions_field(y, name) for y in x.values())
+        return False
+    uses_padding = any(_mentions_field(st, "padding") for b in iv.blocks for st in b["s"])
+    rep.check(uses_padding, "R-INTRINSIC-INDEX", "into_vec|drops padding slots", iv.loc, "into_vec consults abi_parts.padding", "into_vec ignores which indices are padding")
     return rep
